@@ -4,7 +4,7 @@ CONSTANT OutFile
 Maximal == pc = "idle" /\ status # "none" /\ (ncalls = MaxCalls \/ status \in {"completed", "failed"})
 Behaviour ==
   [def |-> def, empty |-> [f \in Flows |-> f \in EmptyFlows], trig |-> trig, trigch |-> trigch, plan |-> plan, hist |-> hist, exps |-> exps,
-   maxsteps |-> MaxSteps, maxresumes |-> MaxResumes, nflows |-> NFlows, nnodes |-> NNodes, batch |-> batch,
+   maxsteps |-> MaxSteps, maxresumes |-> MaxResumes, nflows |-> NFlows, nnodes |-> NNodes, batch |-> batch, refreshes |-> refreshes,
    quirks |-> [q \in {"stale_step"} |-> q \in Quirks]]
 EmitLine(rec) ==
   Serialize(ToJson(rec) \o "\n", OutFile,
